@@ -38,6 +38,9 @@ type Val struct {
 	Env []Val
 	Tup []Val
 	Ty  types.Type
+	// Conc/ConcVal: for interface values built by MakeInterface in this unit: the concrete type and value (devirtualisation)
+	Conc    types.Type
+	ConcVal *Val
 	// Alts: the value is one of several closures, selected by path conditions (phi of function values)
 	Alts []FnAlt
 }
